@@ -394,6 +394,14 @@ def taps (l : Deconv α) (ih iw kh kw oh ow : Nat) : List (Nat × Nat × Nat × 
       if l.padding.1 ≤ a ∧ l.padding.2 ≤ b ∧ a - l.padding.1 < oh ∧ b - l.padding.2 < ow
       then some (i, j, ki, kj, a - l.padding.1, b - l.padding.2) else none))))
 
+/-- the scatter loops of the forward pass: for every filter `k`, channel `c` and tap,
+    `y[k][oi][oj] += x[c][i][j] * kernels[k][c][ki][kj]`, starting from zeros -/
+def scatter (x : V3 α) (ks : List (V3 α)) (kf kc : Nat) (tp : List (Nat × Nat × Nat × Nat × Nat × Nat)) (oh ow : Nat) : V3 α :=
+  (List.range kf).foldl (fun acc k => (List.range kc).foldl (fun acc c =>
+    tp.foldl (fun acc t =>
+      L.mod3 (· + L.get3D 0 x c t.1 t.2.1 * L.get4D 0 ks k c t.2.2.1 t.2.2.2.1) acc k t.2.2.2.2.1 t.2.2.2.2.2)
+      acc) acc) (L.replicate3 kf oh ow 0)
+
 /-- `Deconvolution::forward` (output extent computed as `(ih−1)·s + kh − 2p`, the repair of D9) -/
 def forward (l : Deconv α) (x : Tensor α) : Except Err (Tensor α × Tensor α) :=
   match entry x l.inputs, kernelsOf l.kernels with
@@ -408,11 +416,7 @@ def forward (l : Deconv α) (x : Tensor α) : Except Err (Tensor α × Tensor α
       match outputSize ih iw kf (kh, kw) l.stride l.padding with
       | .error e => .error e
       | .ok (.triple _ oh ow) =>
-        let tp := taps l ih iw kh kw oh ow
-        let y : V3 α := (List.range kf).foldl (fun acc k => (List.range kc).foldl (fun acc c =>
-          tp.foldl (fun acc t =>
-            L.mod3 (· + L.get3D 0 x c t.1 t.2.1 * L.get4D 0 ks k c t.2.2.1 t.2.2.2.1) acc k t.2.2.2.2.1 t.2.2.2.2.2)
-            acc) acc) (L.replicate3 kf oh ow 0)
+        let y := scatter x ks kf kc (taps l ih iw kh kw oh ow) oh ow
         match Tensor.triple y with
         | .error e => .error e
         | .ok pre =>
